@@ -36,6 +36,8 @@ class AbstractDiscreteTimeOfflineInterpreter(AbstractOfflineInterpreter, Discret
 
         # Check if the difference between two consecutive timestamps is between
         # the accepted tolerance - if not, increase the violation counter
+        # (the counter describes this data set: it does not accumulate over evaluate() calls)
+        self.sampling_violation_counter = 0
         ts = dataset['time']
         for i in range(len(ts) - 1):
             duration = (ts[i+1] - ts[i]) * self.normalize
